@@ -22,6 +22,7 @@ ASSUME = [
     "join drops unmatched points by design: join pipelines are judged for termination and goroutine exit only",
     "goroutine leak / hung stop are decided from goroutine dumps: every goroutine of the module under test parked on a synchronisation object and motionless over 3 consecutive dumps 1 s apart; anything slower than the deadlines is exit 2, never a verdict",
     "edge capacity 1000 is represented by K in {1,2} in the model; the driver uses the real capacity with 5..2400 points in flight",
+    "the task store's concurrent caller of ExecutingTask.Wait() is modelled as a Waiter process (1 in the main quick config, 2 in Pipeline_waiters2.cfg) and exercised with 1-2 harness goroutines in et.Wait() and with the real services/task_store over its HTTP handlers",
     "the node.run / edge.emit hooks (build tag verif) only delay or fail a goroutine at a point where the Go scheduler could have delayed it / the node could have returned an error",
     "UDF nodes are exercised with an in-process mirror agent over pipes (real UDFNode, udf.Server and Go agent; no external process); batch tasks are not covered",
     "TLC fingerprint collisions are negligible; the libflux link stub is never executed",
@@ -35,6 +36,7 @@ ORIGINAL = [
     ("Pipeline_orig_alerterr.cfg", "Deadlock reached", "failed alert node left its handler goroutines behind"),
     ("Pipeline_loop.cfg", "Deadlock reached", "KNOWN FINDING loopback-stop-deadlock (not repaired)"),
     ("Pipeline_udf.cfg", "NoAcceptedLoss", "stopUDF aborted the UDF (and whatever it held) on every graceful stop"),
+    ("Pipeline_waitnomu.cfg", "Deadlock reached", "a node.Wait that does not hold finishedMu across the receive (seeded C07-r2m1): stop and waiter both receive from the one-shot errCh"),
 ]
 
 
@@ -43,16 +45,16 @@ def run(sc, tier, seed):
     V.build_harness("c07")
     # ---- design level
     if tier == "quick":
-        cfgs = ["Pipeline_quick.cfg", "Pipeline_loopclose.cfg"]   # K=2: Pipeline_quick_k2.cfg by hand, thorough tier has K=2 with 4 and 5 points
+        cfgs = ["Pipeline_quick.cfg", "Pipeline_waiters2.cfg", "Pipeline_loopclose.cfg"]   # K=2: Pipeline_quick_k2.cfg by hand, thorough tier has K=2 with 4 and 5 points
     else:
-        cfgs = ["Pipeline_thorough.cfg", "Pipeline_thorough_k2.cfg", "Pipeline_thorough_buf.cfg", "Pipeline_thorough_p5.cfg", "Pipeline_loopclose.cfg"]
+        cfgs = ["Pipeline_thorough.cfg", "Pipeline_thorough_k2.cfg", "Pipeline_thorough_buf.cfg", "Pipeline_thorough_p5.cfg", "Pipeline_waiters2.cfg", "Pipeline_loopclose.cfg"]
     per_cfg = {}
     for cfg in cfgs:
         res = V.model_check(sc, "Pipeline", "PipelineMC.tla", cfg, timeout=2400)
         R.add_model(res)
         per_cfg[cfg] = {"distinct": res["distinct"], "generated": res["states"], "wall_s": round(res["wall"], 1)}
     observed = {}
-    originals = ORIGINAL if tier != "quick" else [o for o in ORIGINAL if o[0] in ("Pipeline_orig_influx.cfg", "Pipeline_loop.cfg")]
+    originals = ORIGINAL if tier != "quick" else [o for o in ORIGINAL if o[0] in ("Pipeline_orig_influx.cfg", "Pipeline_loop.cfg", "Pipeline_waitnomu.cfg")]
     for cfg, want, what in originals:
         res = V.model_check(sc, "Pipeline", "PipelineMC.tla", cfg, workers=4, timeout=600, expect_violation=[want])
         if res["violated"] != want:
